@@ -462,7 +462,7 @@ def _c0304(prop, tier):
         tasks += rep_tasks([prop], (0, 0), graphs=["fan5"], params=[("one-batch-q2", dict(size=5, nproc=2)), ("sz2-q1", dict(size=2, nproc=1)), ("local", dict(nproc=2))],
                            exit_sets=lambda n: [None, (1, 0, 0, 0, 0), (0, 1, 0, 0, 0)], cancel_sets=lambda n: [(0, 1, 0, 1, 0)], stutter=1)
         tasks += backlog_tasks([prop])
-        tasks += rep_tasks([prop], (0, 0), graphs=["indep11"], params=[("sz1-mx2", dict(size=1, max_nodes=2)), ("sz1-mx3", dict(size=1, max_nodes=3))], finish_orders="default")
+        tasks += rep_tasks([prop], (0, 0), graphs=["indep11"], params=[("sz1-mx2", dict(size=1, max_nodes=2))], finish_orders="default")
         tasks += rep_tasks([prop], (0, 0), graphs=["cancelfan7"], params=[("one-batch-q2", dict(size=7, nproc=2)), ("sz3-q2", dict(size=3, nproc=2))],
                            exit_sets=lambda n: [(0, 1, 0, 0, 0, 0, 0)], cancel_sets=lambda n: [(0, 0, 1, 1, 1, 0, 0)], stutter=1)
         bounds = ("G(1..3) x exit codes {0,1}^n x cancel flags on blocked jobs x 7 parameter sets (incl. two groups, max-nodes 1, local, time-based) "
